@@ -16,6 +16,10 @@ func CheckC05(c *ProgramCase, st *Stats) error {
 	}
 	st.CountN("alias_writes", m.aliasWrites)
 	switch {
+	case m.maxLen >= 1024:
+		st.Count("maxlen>=1024")
+	case m.maxLen >= 256:
+		st.Count("maxlen>=256")
 	case m.maxLen >= 65:
 		st.Count("maxlen>=65")
 	case m.maxLen >= 33:
